@@ -102,7 +102,7 @@ DGRAMS = {
                   b'{"SECoP":"nope","pad":"' + b'p' * 3000 + b'"}', b'\xff' * 4000],
     # hundreds .. thousands of nested arrays / objects: within the receive buffer, and beyond it (1.5 - 4 kB)
     'deep': [b'[' * 1000, b'[' * 1024, b'[' * 512 + b']' * 512, b'{"a":' * 204, b' ' * 20 + b'[' * 1000,
-             b'[' * 996 + b']' * 28, b'[[1],' + b'[' * 1000],
+             b'[' * 1010 + b']' * 14, b'[[1],' + b'[' * 1000],
     'oversized_deep': [b'[' * 1500, b'[' * 2000, b'[' * 4000, b'{"a":' * 800, b'[' * 1030 + b']' * 1030,
                        b'[' * 1600 + b']' * 1600, b'{"a":' * 400 + b'1' + b'}' * 400],
     'discover_extra': [b'{"SECoP":"discover","x":1}', b'{"a":null,"SECoP":"discover"}'],
